@@ -135,8 +135,12 @@ func NewCombiner(params rlwe.Parameters, own ShamirPublicPoint, others []ShamirP
 	cmb.lagrangeCoeffs = make(map[ShamirPublicPoint]ring.RNSScalar)
 	for _, spk := range others {
 		if spk != own {
-			cmb.lagrangeCoeffs[spk] = cmb.ringQP.NewRNSScalar()
-			cmb.lagrangeCoeff(own, spk, cmb.lagrangeCoeffs[spk])
+			coeff := cmb.ringQP.NewRNSScalar()
+			if !cmb.lagrangeCoeff(own, spk, coeff) {
+				// no coefficient exists (see lagrangeCoeff): GenAdditiveShare refuses a set with both points
+				coeff = nil
+			}
+			cmb.lagrangeCoeffs[spk] = coeff
 		}
 	}
 
@@ -172,7 +176,14 @@ func (cmb Combiner) GenAdditiveShare(activesPoints []ShamirPublicPoint, ownPoint
 	for _, active := range actives {
 		//Lagrange Interpolation with the public threshold key of other active players
 		if active != ownPoint {
-			cmb.tmp1 = cmb.lagrangeCoeffs[active]
+			coeff, known := cmb.lagrangeCoeffs[active]
+			if !known {
+				return fmt.Errorf("cannot GenAdditiveShare: the point %d is not among the points the Combiner was created with", active)
+			}
+			if coeff == nil {
+				return fmt.Errorf("cannot GenAdditiveShare: the points %d and %d are equal modulo a prime of the ring, no interpolation is possible with both", ownPoint, active)
+			}
+			cmb.tmp1 = coeff
 			cmb.ringQP.MulRNSScalar(prod, cmb.tmp1, prod)
 		}
 	}
@@ -181,16 +192,27 @@ func (cmb Combiner) GenAdditiveShare(activesPoints []ShamirPublicPoint, ownPoint
 	return
 }
 
-func (cmb Combiner) lagrangeCoeff(thisKey ShamirPublicPoint, thatKey ShamirPublicPoint, lagCoeff []uint64) {
+// lagrangeCoeff computes that/(that-this) modulo every prime of the ring. It returns false if the two
+// points are equal modulo one of the primes (they can be distinct integers): the difference has no inverse
+// there and no coefficient exists.
+func (cmb Combiner) lagrangeCoeff(thisKey ShamirPublicPoint, thatKey ShamirPublicPoint, lagCoeff []uint64) bool {
 
 	this := cmb.ringQP.NewRNSScalarFromUInt64(uint64(thisKey))
 	that := cmb.ringQP.NewRNSScalarFromUInt64(uint64(thatKey))
 
 	cmb.ringQP.SubRNSScalar(that, this, lagCoeff)
 
+	for _, d := range lagCoeff {
+		if d == 0 {
+			return false
+		}
+	}
+
 	cmb.ringQP.Inverse(lagCoeff)
 
 	cmb.ringQP.MulRNSScalar(lagCoeff, that, lagCoeff)
+
+	return true
 }
 
 // BinarySize returns the serialized size of the object in bytes.
